@@ -18,6 +18,9 @@ type c05Conn struct{ inflight *uint32 }
 func (c *c05Conn) commitRead(n int)                       {}
 func (c *c05Conn) setCallback(cb eventConnCallback) error { return nil }
 func (c *c05Conn) write(data []byte) error {
+	if len(data) >= headerSize && header(data).MsgType() != typePolling {
+		return nil // some other writer's event: it wakes nobody
+	}
 	atomic.AddUint32(c.inflight, 1)
 	return nil
 }
@@ -110,4 +113,91 @@ func H_C05_wakeup() {
 	vfAssert(sent <= nacc, "C05.at-most-one-notification-per-element")
 	vfAssert(!(consQ.size() > 0 && !consQ.consumerIsWorking() && nothingInFlight), "C05.nonempty-idle-has-notification")
 	vfCover("C05.end")
+}
+
+// C05 (a stalled send loop): go_policy coro. The control connection is busy (another writer holds
+// Session.writing, e.g. a large fallback message going out slowly) and sendCh is full, so a
+// producer's wake-up has to wait in the slow path of wakeUpPeer for as long as that lasts - longer
+// than any time-out (time passes: timers fire when nobody can proceed). Then the connection gets
+// free, the real send loop writes what was queued, the consumer handles every polling event it
+// receives. At quiescence the queue must be empty - each accepted element was either announced or
+// its producer's later elements were.
+func H_C05_slowsend() {
+	const c = 4
+	mem := make([]byte, queueHeaderLength+c*queueElementLen)
+	prodQ := createQueueFromBytes(mem, c)
+	consQ := mappingQueueFromBytes(mem)
+	var inflight uint32
+	capCh := vfShape("sendcap", 1, 2)
+	a := &Session{
+		queueManager:          &queueManager{sendQueue: prodQ},
+		eventConn:             &c05Conn{inflight: &inflight},
+		sendCh:                make(chan sendReady, capCh),
+		notifyContinueWriteCh: make(chan struct{}, 1),
+		shutdownCh:            make(chan struct{}),
+		communicationVersion:  2,
+		config:                &Config{ConnectionWriteTimeout: 10},
+	}
+	b := &Session{
+		queueManager: &queueManager{recvQueue: consQ},
+		streams:      map[uint32]*Stream{},
+		isClient:     true,
+	}
+	// the connection is busy and the send loop's queue is full of other writers' events
+	a.writing = 1
+	other := make([]byte, headerSize+4)
+	header(other).encode(headerSize+4, 2, typeStreamClose)
+	for i := 0; i < capCh; i++ {
+		a.sendCh <- sendReady{nil, other, nil}
+	}
+	P := vfShape("producers", 1, 2)
+	var accepted [2]bool
+	var returned [2]bool
+	for t := 0; t < P; t++ {
+		t := t
+		go func() {
+			e := queueElement{seqID: uint32(t + 1), offsetInShmBuf: 0, status: uint32(streamClosed)}
+			if err := a.sendQueue().put(e); err == nil {
+				accepted[t] = true
+				a.wakeUpPeer()
+			}
+			returned[t] = true
+		}()
+	}
+	vfRunGoroutines() // producers enqueue; the first one's wake-up waits in the slow path; time passes
+	// the connection becomes free: the real send loop runs and writes what is queued
+	a.writing = 0
+	asyncNotify(a.notifyContinueWriteCh)
+	go a.send()
+	vfRunGoroutines()
+	// process B handles every polling event that was written
+	for i := 0; i < 8; i++ {
+		if inflight > 0 {
+			inflight--
+			handlePolling(b, nil, nil)
+		}
+	}
+	vfRunGoroutines()
+	for t := 0; t < P; t++ {
+		vfAssert(returned[t], "C05.producer-returns-once-the-connection-is-free")
+	}
+	if inflight == 0 && len(a.sendCh) == 0 {
+		vfAssert(consQ.size() == 0, "C05.no-stranded-element")
+		vfCover("C05.slowsend.quiescent")
+	}
+	// a later, unrelated producer must not be needed - but it must still work
+	e := queueElement{seqID: 9, offsetInShmBuf: 0, status: uint32(streamClosed)}
+	vfAssert(a.sendQueue().put(e) == nil, "C05.later-put")
+	a.wakeUpPeer()
+	vfRunGoroutines()
+	for i := 0; i < 8; i++ {
+		if inflight > 0 {
+			inflight--
+			handlePolling(b, nil, nil)
+		}
+	}
+	vfAssert(consQ.size() == 0, "C05.later-element-is-announced-too")
+	close(a.shutdownCh)
+	vfRunGoroutines()
+	vfCover("C05.slowsend.end")
 }
